@@ -7,16 +7,21 @@ set -u
 export GOFLAGS=-mod=mod GOPROXY=off GOSUMDB=off GOTOOLCHAIN=local GOWORK=off
 patch=$(readlink -f "$1"); shift
 scratch=$(mktemp -d "${TMPDIR:-/tmp}/gmcmut.XXXXXX")
+[ -n "$scratch" ] && [ -d "$scratch" ] || { echo "NO-SCRATCH-DIR (disk full?)"; exit 9; }
+case "$scratch" in /repo*|/verif*) echo "REFUSING scratch=$scratch"; exit 9;; esac
 trap 'rm -rf "$scratch"' EXIT
 mkdir -p "$scratch/repo" "$scratch/verif"
 rsync -a --exclude .git /repo/ "$scratch/repo/"
 cp -r /verif/rules /verif/known_findings.json "$scratch/verif/" 2>/dev/null
 [ -d /verif/fixtures ] && cp -r /verif/fixtures "$scratch/verif/"
-if ! (cd "$scratch/repo" && patch -p1 -s < "$patch"); then echo "PATCH-FAILED $patch"; exit 3; fi
-if ! (cd "$scratch/repo" && go build ./... 2>"$scratch/build.log"); then echo "MUTANT-DOES-NOT-COMPILE $patch"; head -5 "$scratch/build.log"; exit 4; fi
+if ! (cd "$scratch/repo" && patch -p1 -s --batch < "$patch" >/dev/null 2>&1); then echo "PATCH-FAILED $patch"; exit 3; fi
+# no separate go build: gmcheck type-checks the whole scratch module from source and fails
+# the run ("load:") on any type error; building would fill the build cache with one copy of
+# the module per scratch path.
 rc=0
 for p in "$@"; do
   out=$(/verif/bin/gmcheck -property "$p" -repo "$scratch/repo" -verif "$scratch/verif" -nofixtures 2>&1)
+  if echo "$out" | grep -q "^gmcheck: load:"; then echo "MUTANT-DOES-NOT-COMPILE $p $(basename "$patch"): $(echo "$out" | grep "^gmcheck: load:" | head -1 | cut -c1-200)"; rc=4; continue; fi
   if echo "$out" | grep -q "^VIOLATION property=$p"; then
     echo "KILLED $p $(basename "$patch"): $(echo "$out" | grep -B4 '^VIOLATION' | grep -E '^\S+:[0-9]+:[0-9]+ ' | head -3 | tr '\n' ';')"
   else
